@@ -13,12 +13,12 @@ import (
 )
 
 type vfSearchCase struct {
-	N      int      `json:"n"`      // len(xs), even
-	Off    int      `json:"off"`    // offset of xs in the backing array
-	Back   []uint64 `json:"back"`   // whole backing array
+	N      int      `json:"n"`    // len(xs), even
+	Off    int      `json:"off"`  // offset of xs in the backing array
+	Back   []uint64 `json:"back"` // whole backing array
 	K      uint64   `json:"k"`
-	Nil    bool     `json:"nil"`    // xs is a nil slice
-	Back2  []uint64 `json:"back2"`  // second surrounding for the metamorphic check (same xs contents)
+	Nil    bool     `json:"nil"`   // xs is a nil slice
+	Back2  []uint64 `json:"back2"` // second surrounding for the metamorphic check (same xs contents)
 	Off2   int      `json:"off2"`
 	Origin string   `json:"origin"` // generator classes, informational
 }
